@@ -39,6 +39,17 @@ def ctx_rule(ctx, prefix):
     val = value_routine(ctx)
     ref = cm.css_ref()
     math = set(ref["math_functions"])
+    # a block is copied to its end: in the two block routines only the exhausted input ends the loop - no arm leaves it
+    for role in ("value-block", "class-block"):
+        d = roles[role]
+        leaves = []
+        for a in d.arms:
+            for n in sir.walk(a.body, into_closures=False):      # closures (try_parse transactions) are not entered: their `?` ends the attempt, not the loop
+                if n.get("k") in ("return", "break", "try"):
+                    leaves.append("the arm for %s can leave the loop (`%s`)" % ("|".join(sorted(a.variants)), sir.expr_str(n)[:50]))
+        obs.append(ob("%s.ctx/%s/to-the-end" % (prefix, role), not leaves, ctx.where(d.fn),
+                      "; ".join(sorted(set(leaves))[:3]) if leaves else "no arm of the %d-arm dispatch leaves the loop: a block is processed up to its closing bracket" % len(d.arms),
+                      witness=None if not leaves else "`width:calc(15rpx + 5px));height:75rpx`: everything after the stray `)` is dropped from the output"))
     for role in ("qualified-prelude", "class-block", "at-prelude", "import-media"):
         d = roles[role]
         where = ctx.where(d.fn)
@@ -806,6 +817,21 @@ def sep_rule(ctx, prefix):
         arg = sir.expr_str(nodes[sep[0]]["args"][0]) if sep else ""
         ok = ok and "prev_ser_type" in recv and arg == "next_ser_type"
         obs.append(ob("%s.sep/append_token" % prefix, ok, ctx.where(f), "append_token asks prev_ser_type.needs_separator_when_before(next) before serialising and then records the new type: %s" % ok))
+    # what is appended never depends on the text already written: the appenders only add to the string (the last characters of an
+    # escaped identifier or of a string look like separators without being any)
+    INSPECT = re.compile(r"^(ends_with|starts_with|chars|char_indices|bytes|as_bytes|last|contains|find|rfind|strip_suffix|strip_prefix|trim_end|trim|pop|truncate|is_empty|is_char_boundary)$")
+    insp = []
+    napp = 0
+    for g in ctx.sc.fns:
+        if g.base != "StyleSheetOutput" or not g.body or not g.name.startswith("append"):
+            continue
+        napp += 1
+        for n in sir.walk(g.body, into_closures=True):
+            if n.get("k") == "mcall" and INSPECT.match(n["m"]) and re.fullmatch(r"(&|&mut|\*|\s)*self\.s", sir.expr_str(n["recv"]).strip()):
+                insp.append("%s looks at the text already written (`self.s.%s(..)`)" % (g.name, n["m"]))
+    obs.append(ob("%s.sep/output-not-inspected" % prefix, napp >= 3 and not insp, "glass-easel-stylesheet-compiler/src/output.rs",
+                  "; ".join(sorted(set(insp))) if insp else "the %d appenders only add to the output string" % napp,
+                  witness=None if not insp else "`.\\31  .b`: the blank that ends the escape is taken for the combinator and `.1 .b` becomes `.1.b`"))
     return obs
 
 
@@ -950,6 +976,21 @@ def class_only_rule(ctx, prefix):
                 callers.add(b["root"].split("::")[-1])
     foreign = callers - sel
     obs.append(ob("%s.only/callers" % prefix, bool(callers) and not foreign, "lib.rs", "write_maybe_class_name is called from %s (selector-context routines: %s)" % (sorted(callers), sorted(sel))))
+    # ... and the value routine never hands a part of a declaration value to a selector-context routine (resolved call graph)
+    val = value_routine(ctx)
+    into_sel = set()
+    nval = 0
+    for b in ctx.mir.bodies:
+        if b["crate"] != "glass_easel_stylesheet_compiler" or b["root"].split("::")[-1] != val:
+            continue
+        nval += 1
+        for c in b["calls"]:
+            nm = sir.norm_mir_name(c["callee"]).split("::")[-1]
+            if nm in sel:
+                into_sel.add(nm)
+    obs.append(ob("%s.only/value-never-selector" % prefix, nval >= 1 and not into_sel, "lib.rs",
+                  "%s (declaration values) calls no selector-context routine" % val if not into_sel else "%s hands nested blocks of a declaration value to %s" % (val, sorted(into_sel)),
+                  witness=None if not into_sel else "`grid-area:[main.start]`: `.start` inside a declaration value is prefixed like a class"))
     wf = [f for f in ctx.sc.fns if f.name == "write_maybe_class_name" and f.body]
     if len(wf) != 1:
         obs.append(ob("%s.only/anchor" % prefix, False, "lib.rs", "write_maybe_class_name not found"))
@@ -1666,6 +1707,18 @@ def host_rules(ctx, prefix):
             # declarations of the :host rule are transformed by the value routine
             ok4 = any(x.get("k") == "call" and sir.call_name(x) == value_routine(ctx) for x in sir.walk(blk))
             obs.append(ob("%s.only/host-declarations" % prefix, ok4, ctx.where(g), "declarations of a :host rule go through %s like any other: %s" % (value_routine(ctx), ok4)))
+            # ... and in the same mode as the declarations of an ordinary rule (sibling agreement of the two call sites)
+            vr = value_routine(ctx)
+            host_calls = [x for x in sir.walk(blk, into_closures=True) if x.get("k") == "call" and sir.call_name(x) == vr]
+            host_ids = set(id(x) for x in host_calls)
+            plain_calls = [x for x in sir.walk(g.body, into_closures=True) if x.get("k") == "call" and sir.call_name(x) == vr and id(x) not in host_ids]
+            hm = set(sir.expr_str(a).replace(" ", "") for x in host_calls for a in x["args"][2:])
+            pm_ = set(sir.expr_str(a).replace(" ", "") for x in plain_calls for a in x["args"][2:])
+            if host_calls and plain_calls:
+                opaque = any(re.fullmatch(r"\w+", t) and t != "None" for t in hm | pm_)
+                obs.append(ob("%s.only/host-declarations/mode" % prefix, True if hm == pm_ else (None if opaque else False), ctx.where(g),
+                              "the declarations of a :host rule and of an ordinary rule are transformed in the same mode: %s vs %s" % (sorted(hm), sorted(pm_)),
+                              witness=None if hm == pm_ else "`:host{--gap:4px + 2rpx}` and `.a{--gap:4px + 2rpx}` come out with different spacing"))
         obs.append(ob("%s.only/guard" % prefix, ok, ctx.where(g), d))
     # nested rule lists inside at-rules are wrapped (so :host inside @media gets its wrappers)
     roles = _roles(ctx)
@@ -1674,6 +1727,31 @@ def host_rules(ctx, prefix):
     deep = d.calls_deep(curly, ctx.sc) if curly is not None else []
     ok = curly is not None and "wrap_at_rule_output" in deep and "get_output_segment" in deep
     obs.append(ob("%s.pair/at-rule-capture" % prefix, ok, ctx.where(d.fn), "the at-rule prelude text is captured from the output and kept on the stack while its block is parsed: %s" % ok))
+    # the captured text ends where the output stands when the block opens: the end bound is read in the arm itself (a length kept
+    # from an earlier token would cut the tail of the prelude off)
+    if curly is not None:
+        segs = [n for n in sir.walk(curly.body, into_closures=True) if n.get("k") == "mcall" and n["m"] == "get_output_segment" and n["args"]]
+        bad = []
+        for n in segs:
+            r = sir.strip_ref(n["args"][0])
+            if r.get("k") == "path" and len(r["segs"]) == 1:
+                ins = [l_["init"] for l_ in sir.walk(curly.body, into_closures=True) if l_.get("k") == "local" and l_["pat"].get("name") == r["segs"][0] and l_.get("init") is not None]
+                r = sir.strip_ref(ins[-1]) if ins else r
+            if r.get("k") != "range" or r.get("to") is None:
+                bad.append("the captured range `%s` is not built in the arm" % sir.expr_str(r))
+                continue
+            to = r["to"]
+            if to.get("k") == "path" and len(to["segs"]) == 1:
+                ins = [l_["init"] for l_ in sir.walk(curly.body, into_closures=True) if l_.get("k") == "local" and l_["pat"].get("name") == to["segs"][0] and l_.get("init") is not None]
+                if not ins:
+                    bad.append("the end of the captured range, `%s`, was taken before the block token was reached" % to["segs"][0])
+                    continue
+                to = ins[-1]
+            if not (to.get("k") == "mcall" and to["m"] in ("cur_output_utf8_len", "cur_utf8_len")):
+                bad.append("the end of the captured range is `%s`, not the current output length" % sir.expr_str(to))
+        obs.append(ob("%s.pair/at-rule-capture/end" % prefix, (not bad) if segs else None, ctx.where(d.fn),
+                      "; ".join(bad) if bad else "the captured prelude ends at the output length read when the block opens (%d site(s))" % len(segs),
+                      witness=None if not bad else "`@layer base{:host{..}}`: the wrapper replayed in the low-priority output is `@layer{`"))
     obs += capture_offsets_rule(ctx, prefix)
     return obs
 
@@ -2244,6 +2322,20 @@ def step_rules(ctx, prefix):
                 built.append("%s calls `.%s()`" % (h.name, x["m"]))
     obs.append(ob("%s.step/verbatim" % prefix, not built, ctx.where(f), "; ".join(sorted(set(built))[:3]) if built else "every token is handed out as cssparser produced it",
                   witness=None if not built else "`1RPX` (a unit that is not rpx) is converted like `1rpx`"))
+    # layering (resolved callees): cssparser's raw token readers are reachable from the dispatch loops through DerefMut; only the step
+    # parser may call them - everybody else gets tokens with comments filtered out and the position sampled at the token
+    raw = []
+    readers = 0
+    for b in ctx.mir.by_crate.get("glass_easel_stylesheet_compiler", []):
+        for c in b["calls"]:
+            nm = sir.norm_mir_name(c["callee"])
+            if nm in ("cssparser::Parser::next", "cssparser::Parser::next_including_whitespace", "cssparser::Parser::next_including_whitespace_and_comments", "cssparser::Parser::next_byte"):
+                if b["root"].startswith("step::StepParser::"):
+                    readers += 1
+                else:
+                    raw.append("%s calls `%s` directly" % (b["root"], nm.split("::")[-1]))
+    obs.append(ob("%s.step/raw-reads" % prefix, readers >= 1 and not raw, "step.rs", "; ".join(sorted(set(raw))) if raw else "cssparser's raw token readers are called from the step parser only (%d site(s))" % readers,
+                  witness=None if not raw else "`calc(1px /*c*/+ 2px)`: a look-ahead that sees the comment instead of the `+` drops the blank in front of the operator"))
     return obs
 
 
